@@ -3,6 +3,7 @@
   is still running (C11).
 -/
 import AJ.Proofs.CoreB
+import AJ.Proofs.ProgBInv
 namespace AJ.Proofs.ShutB
 open AJ.Run AJ.Full AJ.Proofs.CoreA AJ.Proofs.CoreB
 set_option linter.unusedVariables false
@@ -566,8 +567,17 @@ theorem top_over_only_ticks (c : Cfg) (hwf : c.wf = true) (evs : List EvB) (st s
       · exact ((hq s (by omega) a).2.2.2 b).2.2
   have hbcAll : ∀ s, st.bc s = .bnone ∨ st.bc s = .bover := fun s => bc_idle hB s (hpcAll s) (hhAll s)
   have hpo := (hB.pcOver 0).1 h0
+  -- the top-level task is finished: nobody can cancel it any more, no cancellation can be delivered into it
+  have hph0 : st.a.ph 0 ≠ .running := fun hr =>
+    ((ProgB.invP_reach c hwf evs st h).runPc 0 w.sched0 hr).2 h0
   cases e with
   | tick d => exact ⟨d, rfl⟩
+  | extCancel =>
+    simp only [stepB] at hs
+    split at hs
+    · cases hs
+    · rename_i a' ha
+      exact absurd (stepA_extCancel ha).1.1 hph0
   | runBegin =>
     simp only [stepB] at hs
     split at hs
@@ -603,8 +613,10 @@ theorem top_over_only_ticks (c : Cfg) (hwf : c.wf = true) (evs : List EvB) (st s
     simp only [stepB] at hs
     split at hs
     · rename_i hg
-      have := hlive s hg.1 hg.2.1
-      rw [hg.2.2.2.1] at this; simp [Ph.live] at this
+      by_cases hz : s = 0
+      · subst hz; exact absurd hg.2.2.1 hph0
+      · have := hlive s (by omega) hg.1
+        rw [hg.2.2.1] at this; simp [Ph.live] at this
     · cases hs
   | waitReturn s =>
     simp only [stepB] at hs
